@@ -306,6 +306,19 @@ def tlc_must_pass(tla, cfg, name, **kw):
     """Design check: any TLC error (invariant violated, assumption false, parse error) is a
     tool error of the framework - the specification itself is wrong or contradicts itself."""
     r = tlc(tla, cfg, name, **kw)
+    if not r.ok and kw.get("workers", 8) != 1 and not kw.get("extra"):
+        # A genuine error of the specification reproduces with one worker.  TLC 1.8 with several workers has failed spuriously
+        # on this machine under load (a race in its record values, see _tlc_glitch); the failing output is kept and the
+        # run repeated single-worker - only that verdict counts.
+        keep = r.out_path + ".failed"
+        try:
+            os.replace(r.out_path, keep)
+        except OSError:
+            keep = None
+        log("[tlc] %s failed with %d workers (rc=%s, output kept in %s); repeating with one worker" % (
+            os.path.basename(cfg), kw.get("workers", 8), r.rc, keep))
+        kw1 = dict(kw, workers=1, timeout=kw.get("timeout", 900) * 4)
+        r = tlc(tla, cfg, name, **kw1)
     if not r.ok:
         tail = subprocess.run(["tail", "-n", "40", r.out_path], stdout=subprocess.PIPE, text=True).stdout
         raise ToolError("TLC failed on %s / %s (rc=%s)\n%s" % (os.path.basename(tla), os.path.basename(cfg), r.rc, tail))
